@@ -263,7 +263,31 @@ func c01Exec(t *testing.T, sc *gen.Scenario, trace bool) *harness.Outcome {
 					return chk(ctx, rq)
 				})
 			}
-			e.JudgeCheck("v1", rq, stateFor(sc, rq), allowed, err, faulty)
+			st := stateFor(sc, rq)
+			if allowed && err == nil && !e.Hung && TwoUsersetsOfOneType(sc.Model, rm.ObjType(rq.Obj), rq.Rel) && crossUsersetTuple(sc.Model, st) && !st.CheckSuper(rq.Obj, rq.Rel, rq.User, rq.Ctx).CanBeTrue {
+				// a wrong grant in the shape of recorded finding F39 (the recursive userset strategy follows
+				// T#r2 tuples as if they named r): is it that? The same request against a copy of the store
+				// without those tuples: if the reference still denies and the engine still grants, it is not
+				less := withoutCrossUsersetTuples(sc.Model, sc.Tuples)
+				rq2 := rq
+				rq2.CtxTuples = withoutCrossUsersetTuples(sc.Model, rq.CtxTuples)
+				ref2 := rm.NewState(sc.Model, append(append([]rm.Tuple(nil), less...), rq2.CtxTuples...))
+				if !ref2.CheckSuper(rq.Obj, rq.Rel, rq.User, rq.Ctx).CanBeTrue {
+					cid := e.NewULID(900 + i)
+					e.Run.Name(cid, fmt.Sprintf("X%d", i))
+					if e.cloneStore(cid, less) == nil {
+						orig := e.StoreID
+						e.StoreID = cid
+						ctx2, cancel2 := context.WithTimeout(simrt.WithReq(context.Background(), fmt.Sprintf("r%dnocross", i)), 3*time.Second)
+						again, err2 := chk(ctx2, rq2)
+						cancel2()
+						e.StoreID = orig
+						e.GrantNotFromCrossUsersets = err2 == nil && again
+					}
+				}
+			}
+			e.JudgeCheck("v1", rq, st, allowed, err, faulty)
+			e.GrantNotFromCrossUsersets = false
 			e.SigExtra = ""
 			if out.Violation != nil {
 				return
